@@ -182,10 +182,13 @@ var v2Bounds = [][]byte{nil, []byte("0"), []byte("a"), []byte("aa"), []byte("b")
 
 // v2Value: the value written for a key in a version. Key "a" always gets the same value, so that histories
 // contain rewrites of an identical value (a new leaf of the new version must still be created); the other keys
-// get a value that names the version.
+// get a value that names the version, except key "c", which always gets the empty value.
 func v2Value(k string, ver int64) string {
 	if k == "a" {
 		return "same"
+	}
+	if k == "c" {
+		return "" // an empty value is a legal value (the key is present)
 	}
 	return fmt.Sprintf("v%d", ver)
 }
@@ -261,7 +264,8 @@ func checkV2Reads(t *iavl2.Tree, c smap, root *ref.Node, what string, iterators 
 		if err != nil {
 			return fmt.Sprintf("%s: Get(%s): %v", what, k, err)
 		}
-		if present != (got != nil) || (present && string(got) != want) {
+		// (for a present key with the empty value Get may return nil or empty; presence is what Has reports)
+		if (present && want != "" && got == nil) || (!present && got != nil) || (present && string(got) != want) {
 			return fmt.Sprintf("%s: Get(%s) = %q (nil=%v), model %q present=%v", what, k, got, got == nil, want, present)
 		}
 		has, err := t.Has([]byte(k))
